@@ -2,14 +2,17 @@ module verifharness
 
 go 1.22.5
 
-require github.com/Khan/genqlient v0.0.0
+require (
+	github.com/Khan/genqlient v0.0.0
+	github.com/vektah/gqlparser/v2 v2.5.19
+)
 
 require (
 	github.com/agnivade/levenshtein v1.1.1 // indirect
 	github.com/alexflint/go-arg v1.5.1 // indirect
 	github.com/alexflint/go-scalar v1.2.0 // indirect
 	github.com/bmatcuk/doublestar/v4 v4.6.1 // indirect
-	github.com/vektah/gqlparser/v2 v2.5.19 // indirect
+	github.com/google/uuid v1.6.0 // indirect
 	golang.org/x/mod v0.20.0 // indirect
 	golang.org/x/sync v0.8.0 // indirect
 	golang.org/x/tools v0.24.0 // indirect
